@@ -131,6 +131,10 @@ class AbstractDataframeDataReader:
 
         # Check patient ID common to every format
         self._check_ID(df["ID"])
+        if isinstance(df["ID"].dtype, pd.CategoricalDtype):
+            # use plain identifiers afterwards: unused categories (declared, or left after dropping
+            # rows full of nans) would otherwise yield empty individuals in the group-by operations
+            df["ID"] = df["ID"].astype(df["ID"].cat.categories.dtype)
 
         df = self._set_index(df)
         if not df.index.is_unique:
